@@ -20,7 +20,11 @@ Inductive cstep :=
 Inductive c15_case :=
 | CInst (ms : list member) (group_ok splits_ok : bool)
 | CHist (self : addr) (admin gadmin : option addr) (ms : list member) (steps : list (op * obs))
-| CHistM (self wasm_admin : addr) (admin gadmin : option addr) (ms : list member) (steps : list cstep).
+| CHistM (self wasm_admin : addr) (admin gadmin : option addr) (ms : list member) (steps : list cstep)
+(* splits instantiated with `attached` coins; `bal0` = balances observed right after the
+   instantiation (splits, the group contract, everybody named) *)
+| CHistF (self wasm_admin : addr) (admin gadmin : option addr) (ms : list member) (attached : list coin)
+         (bal0 : list (addr * denom * N)) (steps : list cstep).
 
 (* bank messages are compared as multisets: both sides are sorted by (to, denom, amount) *)
 Definition msg_key (m : bmsg) : N * N * N :=
@@ -87,6 +91,13 @@ Definition c15_check (c : c15_case) : bool :=
   | CHist self admin gadmin ms steps =>
       match group_instantiate ms with
       | Ok g => check_steps (init_world self admin gadmin g) steps
+      | Err => false
+      end
+  | CHistF self wa admin gadmin ms attached bal0 steps =>
+      match group_instantiate ms with
+      | Ok g =>
+          let w := init_world_funded self admin gadmin g attached in
+          forallb (fun x => let '(a, d, v) := x in bal (w_bank w) a d =? v) bal0 && check_xsteps wa w steps
       | Err => false
       end
   | CHistM self wa admin gadmin ms steps =>
